@@ -747,3 +747,196 @@ func ruleCommitMarksWindow(c *Ctx, r *Report) {
 	}
 	r.Floor(rule, n, 2)
 }
+
+// ruleSeqReconstruction (C06, DTLS 1.3): RFC 9147 4.2.2 reconstructs the full record number as the
+// value congruent to the on-wire bits that is closest to highest+1. Structurally: window
+// W = 1 << (8|16), mask W-1, candidate = (expected &^ mask) | (partial & mask); the candidate is
+// moved up by W when candidate + W/2 <= expected and down by W when candidate > expected + W/2
+// (and candidate >= W). The rule checks that both thresholds are half the window, that the
+// shifts are one whole window and that the three outcomes exist - a wrong threshold accepts a
+// record in the wrong window (replay slot and nonce of a different record number).
+func ruleSeqReconstruction(c *Ctx, r *Report) {
+	const rule = "seq-reconstruction"
+	fn := c.need(r, rule, "dtls.reconstructSequenceNumber")
+	if fn == nil {
+		return
+	}
+	r.Sites += len(fn.Blocks)
+	var W, H, E ssa.Value
+	isConst := func(v ssa.Value, k int64) bool { x, ok := constInt(v); return ok && x == k }
+	for _, b := range fn.Blocks {
+		for _, in := range b.Instrs {
+			bo, ok := in.(*ssa.BinOp)
+			if !ok {
+				continue
+			}
+			switch {
+			case bo.Op == token.SHL && isConst(bo.X, 1):
+				W = bo
+			case bo.Op == token.ADD && isConst(bo.Y, 1):
+				if p, isP := bo.X.(*ssa.Parameter); isP && paramIndex(p) == 2 {
+					E = bo
+				}
+			}
+		}
+	}
+	if W == nil || E == nil {
+		r.Unk(rule, short(fn), c.pos(fn.Pos()), "window (1 << bits) or expected (highest+1) not found")
+		return
+	}
+	// the width is 16 with the S bit, 8 without
+	okBits := false
+	if sh, ok := W.(*ssa.BinOp); ok {
+		if phi, isPhi := stripConv(sh.Y).(*ssa.Phi); isPhi && len(phi.Edges) == 2 {
+			vals := map[int64]bool{}
+			for _, e := range phi.Edges {
+				if k, isC := constInt(e); isC {
+					vals[k] = true
+				}
+			}
+			okBits = vals[8] && vals[16]
+			for _, role := range []bool{true, false} {
+				rl := role
+				w := (&Walk{Fn: fn, Assume: func(v ssa.Value) (Val, bool) {
+					if p, isP := v.(*ssa.Parameter); isP && paramIndex(p) == 1 {
+						return vBool(rl), true
+					}
+					return unknown, false
+				}})
+				got := int64(-1)
+				w.VisitRaw = func(in ssa.Instruction, _ Env, raw map[*ssa.Phi]ssa.Value) bool {
+					if in == ssa.Instruction(sh) {
+						if k, isC := constInt(resolvePhis(phi, raw)); isC {
+							got = k
+						}
+					}
+					return true
+				}
+				w.FromEntry()
+				if (rl && got != 16) || (!rl && got != 8) {
+					okBits = false
+				}
+			}
+		}
+	}
+	r.Check(okBits, rule, short(fn)+":width", c.ipos(W.(ssa.Instruction)), "16 on-wire bits with the S bit, 8 without", "the reconstruction window is not 2^16 with the S bit and 2^8 without")
+	for _, b := range fn.Blocks {
+		for _, in := range b.Instrs {
+			if bo, ok := in.(*ssa.BinOp); ok && bo.X == W {
+				if (bo.Op == token.QUO && isConst(bo.Y, 2)) || (bo.Op == token.SHR && isConst(bo.Y, 1)) {
+					H = bo
+				}
+			}
+		}
+	}
+	// candidate: the value returned as it is
+	var C ssa.Value
+	var rets []ssa.Value
+	for _, b := range fn.Blocks {
+		if ret, ok := b.Instrs[len(b.Instrs)-1].(*ssa.Return); ok {
+			rets = append(rets, unspill(ret.Results[0]))
+		}
+	}
+	for _, v := range rets {
+		if bo, ok := v.(*ssa.BinOp); ok && bo.Op == token.OR {
+			C = bo
+		}
+	}
+	if C == nil || H == nil {
+		r.Bad(rule, short(fn), c.pos(fn.Pos()), "candidate (masked merge) or half window (W/2) not found: the reconstruction does not follow RFC 9147 4.2.2")
+		return
+	}
+	// candidate = (E &^ M) | (partial & M), M = W-1
+	okCand := false
+	if or, ok := C.(*ssa.BinOp); ok {
+		isMask := func(v ssa.Value) bool {
+			bo, ok := v.(*ssa.BinOp)
+			return ok && bo.Op == token.SUB && bo.X == W && isConst(bo.Y, 1)
+		}
+		isNotMask := func(v ssa.Value) bool {
+			u, ok := v.(*ssa.UnOp)
+			return ok && u.Op == token.XOR && isMask(u.X)
+		}
+		hiOK, loOK := false, false
+		for _, side := range []ssa.Value{or.X, or.Y} {
+			bo, ok := side.(*ssa.BinOp)
+			if !ok {
+				continue
+			}
+			switch bo.Op {
+			case token.AND:
+				for _, pr := range [][2]ssa.Value{{bo.X, bo.Y}, {bo.Y, bo.X}} {
+					if pr[0] == E && isNotMask(pr[1]) {
+						hiOK = true
+					}
+					if p, isP := stripConv(pr[0]).(*ssa.Parameter); isP && paramIndex(p) == 0 && isMask(pr[1]) {
+						loOK = true
+					}
+				}
+			case token.AND_NOT:
+				if bo.X == E && isMask(bo.Y) {
+					hiOK = true
+				}
+			}
+		}
+		okCand = hiOK && loOK
+	}
+	r.Check(okCand, rule, short(fn)+":candidate", c.ipos(C.(ssa.Instruction)), "candidate = (expected &^ mask) | (partial & mask)", "the candidate is not the expected number with its low bits replaced by the on-wire bits")
+	// thresholds
+	var terms []string
+	okT := true
+	nCmp := 0
+	for _, b := range fn.Blocks {
+		for _, in := range b.Instrs {
+			bo, ok := in.(*ssa.BinOp)
+			if !ok {
+				continue
+			}
+			switch bo.Op {
+			case token.LSS, token.LEQ, token.GTR, token.GEQ:
+			default:
+				continue
+			}
+			for _, pr := range [][2]ssa.Value{{bo.X, bo.Y}, {bo.Y, bo.X}} {
+				add, isAdd := pr[0].(*ssa.BinOp)
+				if !isAdd || add.Op != token.ADD {
+					continue
+				}
+				var base, term ssa.Value
+				switch {
+				case add.X == C || add.X == E:
+					base, term = add.X, add.Y
+				case add.Y == C || add.Y == E:
+					base, term = add.Y, add.X
+				default:
+					continue
+				}
+				other := pr[1]
+				if (base == C && other == E) || (base == E && other == C) {
+					nCmp++
+					terms = append(terms, shapeOf(term, 0))
+					if term != H {
+						okT = false
+					}
+				}
+			}
+		}
+	}
+	r.Check(okT && nCmp == 2, rule, short(fn)+":thresholds", c.pos(fn.Pos()), "both window moves are decided at half the window", fmt.Sprintf("the candidate is moved to another window at thresholds %v instead of half the window (W/2) on both sides: records up to a whole window away are attributed to the wrong record number", terms))
+	// outcomes
+	up, down, same := false, false, false
+	for _, v := range rets {
+		if v == C {
+			same = true
+		}
+		if bo, ok := v.(*ssa.BinOp); ok {
+			if bo.Op == token.ADD && ((bo.X == C && bo.Y == W) || (bo.Y == C && bo.X == W)) {
+				up = true
+			}
+			if bo.Op == token.SUB && bo.X == C && bo.Y == W {
+				down = true
+			}
+		}
+	}
+	r.Check(up && down && same, rule, short(fn)+":outcomes", c.pos(fn.Pos()), "candidate, candidate+W, candidate-W", "the reconstruction does not return exactly the candidate or the candidate one whole window up or down")
+}
